@@ -30,6 +30,8 @@ func init() {
 			ruleExhaustiveWalks(c, "R8", []*ssa.Function{c.A.TreeClean}, "a cleaned route is no longer reported: Clean visits every child")
 			ruleCleanTestsEveryChild(c, "R8b")
 			ruleInterceptorShorthands(c, "R9")
+			ruleReportedRoute(c, "R13")
+			ruleCharClasses(c, "R9b", "syntax.MatchDigit", "syntax.MatchWord")
 			ruleRequestPathIsMatched(c, "R10")
 			ruleGroupRejectionUndo(c, "R11")
 			ruleStrictValidated(c, "R12")
